@@ -271,7 +271,7 @@ C19_FRAME_JOBS = [('contracts.fa', k) for k in ('ENFA.get_intersection', 'ENFA.g
     + [('contracts.cfg_subst', k) for k in ('CFG.substitute', 'CFG.union', 'CFG.concatenate', 'CFG.get_closure', 'CFG.get_positive_closure')] \
     + [('contracts.cfg2pda', 'CFG.to_pda'), ('contracts.pda', 'PDA.to_final_state'), ('contracts.pda', 'PDA.to_empty_stack')] \
     + [('contracts.fst', k) for k in ('FST.union', 'FST.concatenate', 'FST.kleene_star')]
-mixed2('C19', [('contracts.cfg_cache', 'CFG._get_generating_or_nullable')] + C19_FRAME_JOBS, [],
+mixed2('C19', [('contracts.cfg_cache', 'CFGCounters._get_generating_or_nullable')] + C19_FRAME_JOBS, [],
        'Deductive, two pieces. (1) CFG._get_generating_or_nullable restores the memoised counters: for every grammar and iteration order, _remaining_lists and _impacts hold on return exactly the values they had right after _set_impacts_and_remaining_lists() (and the values at entry when the tables were already built), so get_generating_symbols / get_nullable_symbols / is_empty / remove_useless_symbols start from the same counters whatever was called before (property anchor "restore of decremented counters"). '
        '(2) For 26 conversions and operations (boolean operations, reverse, copy, determinisation, epsilon removal, to_fst on automata; reverse, unit elimination, useless-symbol removal, substitute, union, concatenate, closures, to_pda on grammars; to_final_state / to_empty_stack on PDAs; union, concatenate, kleene_star on transducers) the obligations "frame: <operand> unchanged" are discharged: the abstract view (states, alphabet, transitions, start/final; variables, terminals, start symbol, productions) of every operand is the same after the call, also when both operands are one object, and the result is a fresh object.',
        'contract-based deductive verification (pyvc + z3): restoration of the memoised counters of the CFG analyses, frame obligations of the proved conversions; bounded run-time contract checking (histories of calls compared with fresh equal objects) for everything else',
